@@ -13,6 +13,8 @@
                                                        -> [announce_secure] [client_choice] [client_session]
    - client.go:1478-1499              redirect handling with the scheme downgrade check
                                                        -> [redirect_step] [follow]
+   - client_format.go:233-262, server_session_format.go:237-266  readPacketRTP: remote-SSRC latch in
+                                      front of decryption   -> [filter_step] [filter_run]
    The MIKEY message is an abstract record (fields of pkg/mikey's structs that the two conversion
    functions read or write); its byte-level marshalling is domain "mikey" (C09). *)
 From GVL Require Import NList Wire.
@@ -381,7 +383,29 @@ Fixpoint follow (cur_rtsps : bool) (chain : list scheme) : list bool * N :=
   end.
 
 (* ------------------------------------------------------------------------------------------ *)
-(* 7. line protocol                                                                             *)
+(* 7. the remote-SSRC latch in front of decryption (clientFormat / serverSessionFormat)          *)
+(* ------------------------------------------------------------------------------------------ *)
+
+Record latch := mkLatch { l_filled : bool; l_value : N }.   (* remoteSSRCFilled, remoteSSRCValue *)
+
+Inductive revent := EWrongSSRC | EDecodeError | EDelivered.
+
+(* one inbound RTP packet of a format: its header SSRC and whether decodeRTP succeeds (with an ideal
+   cipher: the packet is genuine and its ROC is guessed right; without SRTP: always).
+   secure = (srtpInCtx != nil).  The latch is written BEFORE the packet is authenticated. *)
+Definition filter_step (secure : bool) (l : latch) (ssrc : N) (auth_ok : bool) : latch * revent :=
+  if negb (l_filled l) then (mkLatch true ssrc, if auth_ok then EDelivered else EDecodeError)
+  else if secure && negb (l_value l =? ssrc) then (l, EWrongSSRC)
+  else (l, if auth_ok then EDelivered else EDecodeError).
+
+Fixpoint filter_run (secure : bool) (l : latch) (pkts : list (N * bool)) : list revent :=
+  match pkts with
+  | [] => []
+  | (ssrc, ok) :: t => let '(l', e) := filter_step secure l ssrc ok in e :: filter_run secure l' t
+  end.
+
+(* ------------------------------------------------------------------------------------------ *)
+(* 8. line protocol                                                                             *)
 (* ------------------------------------------------------------------------------------------ *)
 
 Definition put_ctx (c : ctx) : list N :=
@@ -581,6 +605,25 @@ Fixpoint recv_all (c : ctx) (ssrc : N) (sent : list (N * N * N)) (order : list N
     end
   end.
 
+(* kind 10: everything delivered, in order (no index lookups: linear) *)
+Fixpoint recv_inorder (c : ctx) (ssrc : N) (sent : list (N * N * N)) : list N :=
+  match sent with
+  | [] => []
+  | (q, r, _) :: t =>
+    let '(c', ok) := ctx_recv c ssrc q r in
+    putb ok :: roc_of c' ssrc :: recv_inorder c' ssrc t
+  end.
+
+Fixpoint get_pairs (l : list N) : option (list (N * bool)) :=
+  match l with
+  | [] => Some []
+  | a :: b :: t => match get_pairs t with Some r => Some ((a, getb b) :: r) | None => None end
+  | _ => None
+  end.
+
+Definition put_revent (e : revent) : N :=
+  match e with EWrongSSRC => 0 | EDecodeError => 1 | EDelivered => 2 end.
+
 Definition key30 : list N := nrep 0 30.
 
 Definition run (c : list N) : list N :=
@@ -688,5 +731,23 @@ Definition run (c : list N) : list N :=
     end
   (* 8: response profile check *)
   | [8; a; b] => [putb (response_profile_ok (getb a) (getb b))]
+  (* 9: SSRC latch: secure, then (ssrc, decodes) pairs in arrival order *)
+  | 9 :: sec :: t =>
+    match get_pairs t with
+    | Some ps => map put_revent (filter_run (getb sec) (mkLatch false 0) ps)
+    | None => bad_case
+    end
+  (* 10: ROC tracking, all packets delivered in order: sender start ROC, receiver start ROC, seqs *)
+  | 10 :: sroc :: rroc :: t =>
+    match getl t with
+    | Some (seqs, []) =>
+      match initialize key30 [] [7] [sroc], initialize key30 [] [7] [rroc] with
+      | IOk a, IOk b =>
+        let '(sent, _) := send_all a 7 seqs in
+        putl (map (fun x => snd x) sent) ++ recv_inorder b 7 sent
+      | _, _ => bad_case
+      end
+    | _ => bad_case
+    end
   | _ => bad_case
   end.
